@@ -33,6 +33,7 @@ type plan struct {
 	Refines    [][2]string
 	RefineModel map[string]map[string]string // impl key -> interface spec function -> model spec function
 	Thorough   [][2]string // label, shell command: independent or bounded cross-checks run in the thorough tier only
+	Frozen     [][2]string // package path, type name: fields of constructed objects are never reassigned (SSA scan)
 }
 
 func readPlan(path string) (*plan, error) {
@@ -79,6 +80,9 @@ func readPlan(path string) (*plan, error) {
 			} else {
 				p.Sweep = append(p.Sweep, key)
 			}
+		case "frozen":
+			// frozen <TypeName>: fields of a constructed object of this type (of the current pkg) are never reassigned
+			p.Frozen = append(p.Frozen, [2]string{pkg, rest})
 		case "lemma":
 			p.Lemmas = append(p.Lemmas, rest)
 		case "thorough":
@@ -270,6 +274,27 @@ func checkCmd(args []string) {
 		pu := &unit{name: "prelude lemmas", presolved: true, pos: filepath.Join(*root, "specs", "prelude_lemmas")}
 		pu.ex = &vc.Exec{P: prog, Out: vc.CheckPreludeLemmas(filepath.Join(*root, "specs", "prelude_lemmas"), timeout)}
 		units = append(units, pu)
+	}
+	if len(pl.Frozen) > 0 {
+		fu := &unit{name: "frozen fields", presolved: true, pos: *planPath}
+		fsr := vc.NewScript()
+		for _, fz := range pl.Frozen {
+			o := &vc.Obligation{Name: "frozen:" + fz[0] + "." + fz[1], Func: "frozen fields", Kind: "scan", Expect: "unsat", Solver: "scan:ssa",
+				Text: "no function of " + fz[0] + " assigns a field of an existing " + fz[1] + " or lets the address of a reference-typed field escape"}
+			startT := time.Now()
+			bad := prog.FrozenFields(fz[0], fz[1])
+			o.TimeS = time.Since(startT).Seconds()
+			if len(bad) == 0 {
+				o.Status = "discharged"
+			} else {
+				o.Status = "failed"
+				o.Detail = strings.Join(bad, "; ")
+				o.Model = strings.Join(bad, "\n")
+			}
+			fsr.Obls = append(fsr.Obls, o)
+		}
+		fu.ex = &vc.Exec{P: prog, Out: fsr}
+		units = append(units, fu)
 	}
 	if *tier == "thorough" && len(pl.Thorough) > 0 {
 		// independent / bounded cross-checks (labelled as such in the evidence; never counted as deductive proof of the property)
